@@ -285,8 +285,12 @@ func (e *env) send(c, from int, tok string, amt int64, evm bool) {
 	s.Ctx = cctx
 	res := hx.Try(func() error {
 		if !evm {
-			_, err := s.App.IBCTransferKeeper.Transfer(cctx, transfertypes.NewMsgTransfer(ch.port, ch.id, sdk.NewCoin(fxtypes.DefaultDenom, sdkmath.NewInt(amt)),
-				sdk.AccAddress(a.Bytes()).String(), recipient, clienttypes.ZeroHeight(), uint64(cctx.BlockTime().UnixNano())+1e12, ""))
+			msg := transfertypes.NewMsgTransfer(ch.port, ch.id, sdk.NewCoin(fxtypes.DefaultDenom, sdkmath.NewInt(amt)),
+				sdk.AccAddress(a.Bytes()).String(), recipient, clienttypes.ZeroHeight(), uint64(cctx.BlockTime().UnixNano())+1e12, "")
+			if err := msg.ValidateBasic(); err != nil { // stateless validation of the transaction (zero amounts are rejected here)
+				return err
+			}
+			_, err := s.App.IBCTransferKeeper.Transfer(cctx, msg)
 			return err
 		}
 		target := fxtypes.MustStrToByte32(fmt.Sprintf("0x/%s/%s", ch.port, ch.id))
@@ -456,7 +460,20 @@ func TestC19(t *testing.T) {
 				if rng.Intn(10) == 0 {
 					amt = 0
 				}
-				e.recv(c, toks[rng.Intn(3)], rk, 10+rng.Intn(4), amt, memos[rng.Intn(4)])
+				tok := toks[rng.Intn(3)]
+				if tok == "F" {
+					// an honest counterparty can only return FX it holds: escrow minus what is still in flight outbound
+					avail := e.bal(common.BytesToAddress(transfertypes.GetEscrowAddress(e.chans[c].port, e.chans[c].id)), fxtypes.DefaultDenom)
+					for _, x := range e.sents {
+						if x.ch == c && x.tok == "F" && x.done == "" {
+							avail -= x.amt
+						}
+					}
+					if amt > avail {
+						tok = "B"
+					}
+				}
+				e.recv(c, tok, rk, 10+rng.Intn(4), amt, memos[rng.Intn(4)])
 			default:
 				// settle an in-flight packet, or replay / duplicate an already settled or unknown one
 				var seq uint64 = uint64(1 + rng.Intn(6))
